@@ -96,6 +96,9 @@ func c17Build(seed int64, ci int, cs c17Case) (atlasfake.Config, [][]byte, [][]b
 				faults[nm] = atlasfake.Fault{Kind: "status", Status: code}
 			case cs.fault == "reset-before-headers":
 				faults[nm] = atlasfake.Fault{Kind: "reset"}
+			case cs.fault == "transient-cut", cs.fault == "transient-reset", cs.fault == "transient-503":
+				// only the first authenticated request misbehaves; a second one would be served
+				faults[nm] = map[string]atlasfake.Fault{"transient-cut": {Kind: "cut", CutAt: len(z) / 2, Once: true}, "transient-reset": {Kind: "reset", Once: true}, "transient-503": {Kind: "status", Status: 503, Once: true}}[cs.fault]
 			case strings.HasPrefix(cs.fault, "cut-"):
 				at := map[string]int{"cut-0": 0, "cut-1": 1, "cut-half": len(z) / 2, "cut-last": len(z) - 1}[cs.fault]
 				faults[nm] = atlasfake.Fault{Kind: "cut", CutAt: at}
